@@ -193,6 +193,9 @@ func cmdCheck(args []string) int {
 		timeoutMs = 120000
 	}
 	vdir := verifDir()
+	if o := os.Getenv("VERIF_OUT"); o != "" {
+		vdir = o // evidence and replay files of trial runs (seeded changes) go elsewhere
+	}
 	os.MkdirAll(filepath.Join(vdir, "evidence"), 0o755)
 	os.MkdirAll(filepath.Join(vdir, "replays"), 0o755)
 	base := loadBaseline()
@@ -236,8 +239,8 @@ func cmdCheck(args []string) int {
 			}
 			continue
 		}
-		nObl++
 		if oblOK(o) {
+			nObl++
 			discharged++
 			backend[o.Solver]++
 		} else {
@@ -262,7 +265,7 @@ func cmdCheck(args []string) int {
 		base.Properties[prop] = names
 		base.Note = "obligations discharged on the pinned tree, by property; written by `govc check <id> --write-baseline`, never at check time"
 		data, _ := json.MarshalIndent(base, "", " ")
-		os.WriteFile(filepath.Join(vdir, "baseline_obligations.json"), data, 0o644)
+		os.WriteFile(filepath.Join(verifDir(), "baseline_obligations.json"), data, 0o644)
 		missing = nil
 	}
 
@@ -316,6 +319,9 @@ func cmdCheck(args []string) int {
 			knownLines = append(knownLines, fmt.Sprintf("KNOWN-FINDING: property=%s %s (%s): %s", prop, k.Id, o.Name, k.What))
 			delete(openByObl, o.Name)
 			continue
+		}
+		if o.Expect != "sat" {
+			nObl++ // an obligation that should have been discharged
 		}
 		reason := "obligation not discharged"
 		if o.Expect == "sat" {
@@ -457,10 +463,6 @@ func round3(x float64) float64 { return float64(int(x*1000+0.5)) / 1000 }
 // extraObligations: closed-formula engines (tables, footprints) hook in here.
 func (w *World) extraObligations(run *checkRun) {}
 
-// tryReplay attempts to reproduce a counterexample on the real code.
-func (w *World) tryReplay(run *checkRun, o *Obligation) (bool, string) {
-	return false, "no lifter available for this obligation kind yet"
-}
 
 // expandFailed replaces failed coarse obligations by their finer expansion.
 func expandFailed(items []workItem, timeoutMs int) []workItem {
